@@ -78,6 +78,7 @@ macro_rules! c03_triangular {
     };
 }
 //@ id: c03_triangular_f32
+//@ besteffort: yes
 //@ prop: C03
 //@ tier: thorough
 //@ cap: 7200
@@ -102,6 +103,7 @@ c03_triangular!(c03_triangular_f32_kf_range, f32, 1e30, 1.1920929e-7f64, 1.8e19,
 //@ bounds: 1e-30 <= max(|min|,|max|) < 1e-15 (the product under the square root is subnormal)
 c03_triangular!(c03_triangular_f32_kf_tiny, f32, 1e30, 1.1920929e-7f64, 1.8e19, 1e-15, 2);
 //@ id: c03_triangular_f64
+//@ besteffort: yes
 //@ prop: C03
 //@ tier: thorough
 //@ cap: 3600
